@@ -240,6 +240,9 @@ def actor_args(rng, name=None, allow_show=True):
         parts.append('name = "%s"' % name)
     if rng.random() < 0.2:
         parts.append("debut")
+    if rng.random() < 0.2:
+        # parts the user writes by hand: the example must leave out exactly what the attribute macro leaves out
+        parts.append(rng.choice(["edit(script(def))", "edit(live(def))", "edit(script(imp(direct)), live(def))", "edit(script(imp(play)))", "edit(script)", "edit(live)"]))
     show = allow_show and rng.random() < 0.15
     rng.shuffle(parts)
     return parts, show, lib
